@@ -108,7 +108,10 @@ theorem written_key_direction_independent (cfg : Config) (ns : Text.Namespaces) 
     (Text.stmtTokens cfg ns { s with inverse := true }).1 = "^" ∧ (Text.stmtTokens cfg ns { s with inverse := false }).1 = "" := by
   refine ⟨?_, rfl, rfl⟩
   unfold Text.stmtTokens
-  simp only [Text.valueToken]
+  have h : Text.valueToken cfg ns { s with inverse := true } = Text.valueToken cfg ns { s with inverse := false } := by
+    funext ty
+    rfl
+  simp only [h]
 
 /-- the value of a constraint on the instantiation property is a value set in both directions, nothing else is -/
 theorem value_set_iff_instantiation_property (cfg : Config) (ns : Text.Namespaces) (s : Shexer.Stmt) (ty : String) :
